@@ -62,6 +62,17 @@ func c05Msg(tag string, typ, pre, tail int) base.RtmpMsg {
 		p = []byte{0x93, 'h', 'v', 'c', '1'}
 	case 11: // well-formed AVC frame header + one NAL length field, NAL bytes arbitrary
 		p = []byte{0x17, 1, 0, 0, 0, 0, 0, 0}
+	case 12: // well-formed avcC record: one SPS of tail bytes (arbitrary) and a one-byte PPS
+		p = []byte{0x17, 0, 0, 0, 0, 1, 0x64, 0, 0x1f, 0xff, 0xe1, 0, byte(tail)}
+		p = append(p, vrt.Bytes(tag, tail)...)
+		p = append(p, 1, 0, 1, 0x68)
+		return base.RtmpMsg{
+			Header:  base.RtmpHeader{Csid: 6, MsgLen: uint32(len(p)), MsgTypeId: uint8(typ), MsgStreamId: 1, TimestampAbs: vrt.U32(tag + "ts")},
+			Payload: p,
+		}
+	case 13: // HEVC sequence header of the minimum record size with an arbitrary tail (reaches the record and Annex-B fallback parsers)
+		p = make([]byte, 33)
+		p[0] = 0x1c
 	}
 	p = append(p, vrt.Bytes(tag, tail)...)
 	if len(p) == 0 {
